@@ -7,6 +7,7 @@ package main
 import (
 	"encoding/json"
 	"fmt"
+	"math/rand"
 	"strings"
 
 	"github.com/corestario/kyber"
@@ -257,6 +258,26 @@ func allSchedules(n, t int) []c07Schedule {
 				}
 			}
 		}
+	}
+	return out
+}
+
+// sampleSchedules draws `count` schedules at random, for sizes where allSchedules is too large to enumerate
+// (the number of schedules grows like (n!)^2).
+func sampleSchedules(rng *rand.Rand, n, t, count int) []c07Schedule {
+	order := func() []int {
+		p := rng.Perm(n)
+		return p[:t+rng.Intn(n-t+1)]
+	}
+	var out []c07Schedule
+	for len(out) < count {
+		oa := order()
+		slow, at := -1, 0
+		if len(oa) > t && rng.Intn(3) > 0 {
+			slow = oa[rng.Intn(len(oa))] // one of those who answer, and not needed for the threshold
+			at = 1 + rng.Intn(4)
+		}
+		out = append(out, c07Schedule{orderA: oa, slow: slow, slowAt: at, orderB: order(), pollAll: rng.Intn(2) == 0})
 	}
 	return out
 }
